@@ -158,6 +158,20 @@ def run_sequence(b, phys, laws=False):
                                         ("reset(c).energy_delivered", ev.energy_delivered, 0)):
                     if got != want:
                         return _mis(name, n, op, want, got, phys), nd
+            elif op["op"] == "roundtrip":
+                # the battery alone, and the station with its EV and the EV's battery, through JSON; go on with the loaded ones
+                before = (float(A._current_charge), float(A.current_charging_power), float(B._current_charge),
+                          float(B.current_charging_power), float(ev.energy_delivered), float(ev.current_charging_rate),
+                          float(evse.current_pilot))
+                A = type(A).from_json(A.to_json())
+                evse = type(evse).from_json(evse.to_json())
+                ev = evse.ev
+                B = ev._battery
+                after = (float(A._current_charge), float(A.current_charging_power), float(B._current_charge),
+                         float(B.current_charging_power), float(ev.energy_delivered), float(ev.current_charging_rate),
+                         float(evse.current_pilot))
+                if before != after:
+                    return _mis("roundtrip.changed-state", n, op, list(before), list(after), phys), nd
             elif op["op"] == "resetbad":
                 c = m.kwh(op["c"])
                 before = (A._current_charge, A.current_charging_power, B._current_charge, ev.energy_delivered)
@@ -252,7 +266,7 @@ def probe_state(m, A, n, op, phys):
 
 def sim_eligible(b):
     ch = [o for o in b["ops"] if o["op"] == "charge"]
-    return (len(ch) >= 1 and all(not o["op"].startswith("reset") for o in b["ops"]) and len({o["d"] for o in ch}) == 1
+    return (len(ch) >= 1 and all(o["op"] in ("init", "charge") for o in b["ops"]) and len({o["d"] for o in ch}) == 1
             and all(o["dec"] for o in ch))
 
 
@@ -326,7 +340,7 @@ def replay_laws(case):
 def nontrivial(b):
     """The model (not the pilot) limited a call, or noise took effect, or the sequence has a reset."""
     for o in b["ops"]:
-        if o["op"].startswith("reset"):
+        if o["op"].startswith("reset") or o["op"] == "roundtrip":
             return True
         if o["op"] == "charge" and o["p"] > 0 and o["eLo"] * 2 < o["p"] * o["d"]:
             return True
@@ -399,7 +413,7 @@ def _replay_all(rep, prop, bhvs, seed, nphys, laws, sim_every, procs=1):
             d, ph1 = found
             b = seen[k]
             # "reset restores the initial state" is C14's clause; C03 states the bounds of charge()
-            if prop == "C03" and d["field"].startswith("reset"):
+            if prop == "C03" and d["field"].startswith(("reset", "roundtrip")):
                 rep.foreign_divergence("C14", {"mismatch": d, "bhv": b})
                 continue
             key = "%s:%s:%s" % (prop, tag_of(b["bat"]), d["field"])
@@ -532,7 +546,7 @@ def _trace_binding(rep, prop, seed, ntraces):
 
 # ----------------------------------------------------------------------------- the checks
 _BUDGET = int(os.environ.get("VERIF_WORKERS", "0")) or min(16, os.cpu_count() or 1)
-ACTS = ["DoCharge", "Reset", "ResetTo", "ResetRefused", "Finish"]
+ACTS = ["DoCharge", "Reset", "ResetTo", "ResetRefused", "RoundTrip", "Finish"]
 
 
 def _tlc_jobs(rep, jobs):
